@@ -73,6 +73,11 @@ func (b *baseCockpit) remove(t *task.Task) {
 	b.mu.Lock()
 	defer b.mu.Unlock()
 
+	// a task that was skipped or failed before its commands never started its output
+	if b.spinner == nil {
+		return
+	}
+
 	for k, v := range b.tasks {
 		if v == t {
 			b.tasks = append(b.tasks[:k], b.tasks[k+1:]...)
